@@ -108,6 +108,7 @@ class Ctx:
         self.bigrams = set()
         self.step = -1
         self.armed_asserts = 0
+        self.discrepancies = 0
         self._last_kind = '^'
 
     # -- log
@@ -141,6 +142,7 @@ class Ctx:
             self.armed_asserts += 1
         if cond:
             return True
+        self.discrepancies += 1
         if prop in self.armed:
             full = f'{prop}/{sig}'
             if full not in self._seen_sigs and len(self.violations) < MAX_VIOLATIONS_PER_RUN:
@@ -174,7 +176,16 @@ def run_schedule(workload, schedule, armed):
     """Execute one schedule against the real code. Returns the Ctx."""
     ctx = Ctx(armed)
     pin_globals()
-    workload.execute(schedule, ctx)
+    try:
+        workload.execute(schedule, ctx)
+    except Exception as e:
+        # An object that has already been shown to violate a property can break the simulator's own assumptions
+        # (e.g. a name list shared between instances). That is a derailed run, not a harness error - but only if a
+        # discrepancy was recorded first; an exception on a clean run is a bug in the simulator and is re-raised.
+        if not ctx.discrepancies:
+            raise
+        ctx.log('derailed-after-discrepancy', type(e).__name__)
+        ctx.count('derailed-runs')
     return ctx
 
 
